@@ -3,6 +3,8 @@ package c19
 
 import (
 	"bytes"
+	"github.com/hashicorp/hcl/v2/ext/dynblock"
+	"github.com/hashicorp/hcl/v2/hcldec"
 	"fmt"
 	"strings"
 
@@ -177,5 +179,107 @@ func Handle(c *core.Check, st core.State) {
 	if sawDiag {
 		c.Nontrivial(src)
 		c.Sample(map[string]any{"source": src})
+	}
+}
+
+// ---- bodies: hcldec decoding and dynamic block expansion with secrets in marked values ----
+
+type bodyCase struct {
+	name string
+	src  func(x string) string
+	spec hcldec.Spec
+	dyn  bool
+}
+
+func bodyCases() []bodyCase {
+	attr := func(t cty.Type) hcldec.Spec { return &hcldec.AttrSpec{Name: "a", Type: t} }
+	one := func(x string) string { return "a = " + x + "\n" }
+	var out []bodyCase
+	for name, t := range map[string]cty.Type{
+		"number": cty.Number, "bool": cty.Bool, "list(number)": cty.List(cty.Number), "map(number)": cty.Map(cty.Number),
+		"object{a=map(number)}": cty.Object(map[string]cty.Type{"a": cty.Map(cty.Number)}),
+		"object{a=number,b=bool}": cty.Object(map[string]cty.Type{"a": cty.Number, "b": cty.Bool}),
+		"tuple[map(number)]": cty.Tuple([]cty.Type{cty.Map(cty.Number)}), "set(bool)": cty.Set(cty.Bool),
+	} {
+		out = append(out, bodyCase{"attr:" + name, one, attr(t), false})
+	}
+	out = append(out,
+		bodyCase{"blockattrs:number", func(x string) string { return "blk {\n  k = " + x + "\n}\n" }, &hcldec.BlockAttrsSpec{TypeName: "blk", ElementType: cty.Number}, false},
+		bodyCase{"dynamic-for_each", func(x string) string {
+			return "dynamic \"blk\" {\n  for_each = " + x + "\n  content {\n    k = blk.value\n    j = blk.key\n  }\n}\n"
+		}, &hcldec.BlockListSpec{TypeName: "blk", Nested: hcldec.ObjectSpec{"k": &hcldec.AttrSpec{Name: "k", Type: cty.Number}, "j": &hcldec.AttrSpec{Name: "j", Type: cty.Bool}}}, true},
+		bodyCase{"dynamic-labels", func(x string) string {
+			return "dynamic \"lb\" {\n  for_each = [1]\n  labels = [" + x + "]\n  content {}\n}\n"
+		}, &hcldec.BlockMapSpec{TypeName: "lb", LabelNames: []string{"n"}, Nested: hcldec.ObjectSpec{}}, true},
+		bodyCase{"blockmap-key-from-label", func(x string) string { return "lb \"x\" {\n  a = " + x + "\n}\nlb \"x\" {\n  a = 1\n}\n" },
+			&hcldec.BlockMapSpec{TypeName: "lb", LabelNames: []string{"n"}, Nested: &hcldec.AttrSpec{Name: "a", Type: cty.Number}}, false},
+	)
+	return out
+}
+
+var cases = bodyCases()
+
+// HandleBodies decodes bodies whose attribute is the E1 expression, under several specs, with canary scopes.
+func HandleBodies(c *core.Check, st core.State) {
+	v, err := e1.DecodeVector(st)
+	if err != nil {
+		c.Broken("%v", err)
+		return
+	}
+	c.Count("vectors_replayed", 1)
+	x := e1.Render(v.Node, e1.Layout{})
+	if strings.Contains(x, "\n") {
+		x = "(" + x + ")"
+	}
+	funcs := e1.Functions()
+	for _, bc := range cases {
+		src := bc.src(x)
+		f, pd := hclsyntax.ParseConfig([]byte(src), "b.hcl", hcl.InitialPos)
+		if pd.HasErrors() {
+			continue
+		}
+		files := map[string]*hcl.File{"b.hcl": f}
+		for variant := 0; variant < 3; variant++ {
+			scope := CanaryScope(variant == 1)
+			if variant == 2 {
+				scope = PartialScope()
+			}
+			ctx := &hcl.EvalContext{Variables: scope, Functions: funcs}
+			var ds hcl.Diagnostics
+			c.Count("evaluations", 1)
+			vec := map[string]any{"state": st.Raw, "source": src, "case": bc.name, "kind": "body"}
+			if rec, p := core.Guard(func() {
+				body := f.Body
+				if bc.dyn {
+					body = dynblock.Expand(body, ctx)
+				}
+				_, ds = hcldec.Decode(body, bc.spec, ctx)
+			}); p {
+				c.Violation("panic/body/"+bc.name, fmt.Sprintf("decoding %q (%s) with marked scope panicked: %v", src, bc.name, rec), vec)
+				return
+			}
+			if len(ds) == 0 {
+				continue
+			}
+			where, cn, d := CheckDiags(ds, files)
+			if where != "" {
+				w := where
+				if strings.HasPrefix(w, "text-writer") {
+					w = "text-writer"
+				}
+				sig := "leak/body/" + w + "/" + d.Summary
+				if w == "text-writer" && d.EvalContext != nil && d.EvalContext.Parent() != nil {
+					for _, lv := range d.EvalContext.Variables {
+						if !lv.ContainsMarked() && strings.Contains(fmt.Sprintf("%#v", lv), cn) {
+							sig = "leak/text-writer/iterator-variable-summary"
+						}
+					}
+				}
+				if !c.Violation(sig, fmt.Sprintf("decoding %q (%s, scope variant %d): canary %q appears in the %s of diagnostic %q: %s", src, bc.name, variant, cn, where, d.Summary, d.Detail), vec) {
+					return
+				}
+			}
+			c.Nontrivial(bc.name + ":" + x)
+		}
 	}
 }
